@@ -42,6 +42,8 @@ VI = {"Ok": 0, "Err": 1, "None": 0, "Some": 1}
 ADT = {"Ok": "std::result::Result", "Err": "std::result::Result", "None": "std::option::Option", "Some": "std::option::Option"}
 MAX_CLOSURE_BLOCKS = 60
 _ADTS = {}
+_KNOWN_FNS = set()
+_ALL_FNS = set()
 INLINED_CLOSURES = []       # closure definition paths whose call was replaced by their body (filled by the passes below)
 
 
@@ -65,7 +67,7 @@ FN_CALLS = ("std::ops::Fn::call", "std::ops::FnMut::call_mut", "std::ops::FnOnce
 
 def _is_local_closure_call(path, t):
     c = t["callee"]
-    return c.get("decl") in FN_CALLS and c["path"].startswith(path.split("::{closure")[0] + "::") and "::{closure#" in c["path"] and len(t["args"]) == 2
+    return c.get("decl") in FN_CALLS and c["path"].startswith(path + "::{closure#") and len(t["args"]) == 2
 
 
 def counts(body, path=None):
@@ -166,6 +168,12 @@ def desugar_simple(body, bb, kind, spec):
     r = _bare(t["args"][0]) if t["args"] else None
     if r is None or t.get("target") is None or t["dest"]["p"]:
         return False
+    if t["callee"]["name"] == "unwrap_or":
+        # `x.unwrap_or(d)` is worth opening up only where x comes out of a helper that will be inlined (its variants are then
+        # known per path); on the result of an ordinary call the call form says the same thing more plainly
+        d = inline._single_def(body, r)
+        if d is not None and d[0] == "call" and (d[2]["callee"]["path"] in _KNOWN_FNS or d[2]["callee"]["path"] not in _ALL_FNS):
+            return False
     span, target, dest = t.get("span"), t["target"], t["dest"]
     res_ty = body["locals"][r]["ty"]
     variants = {"0": "Ok", "1": "Err"} if kind == "Result" else {"0": "None", "1": "Some"}
@@ -380,8 +388,16 @@ def desugar_call(bodies, path, body, bb):
     fop = t["args"][1]
     c = _bare(fop)
     clo_path = clo = fn_path = None
+    c_is_ref = False
     if c is not None:
         d = inline._single_def(body, c)
+        if d is not None and d[0] == "assign" and d[2]["rv"].get("agg") != "closure":
+            # `.and_then(&f)` with `let f = |..| ..;`: the argument is a reference to a closure value built here
+            cp_, holder_ = _closure_of(body, c)
+            if cp_ is None or not body["locals"][c]["ty"].startswith("&"):
+                return False
+            c_is_ref = True
+            d = inline._single_def(body, holder_)
         if d is None or d[0] != "assign" or d[2]["rv"].get("agg") != "closure":
             return False
         clo_path = d[2]["rv"]["def"]
@@ -414,7 +430,9 @@ def desugar_call(bodies, path, body, bb):
     # closure block
     stmts = []
     args = []
-    if clo is not None:
+    if clo is not None and c_is_ref:
+        args.append({"copy": {"l": c, "p": []}})        # already `&closure`, which is what the closure body takes
+    elif clo is not None:
         env_ty = clo["locals"][1]["ty"]
         if env_ty.startswith("&"):
             el = _new_local(body, env_ty)
@@ -439,8 +457,13 @@ def desugar_call(bodies, path, body, bb):
         # `.map(Enum::Variant)`: a tuple-variant constructor used as a function builds that variant
         ep, vn = fn_path.rsplit("::", 1)
         adt = _ADTS.get(ep)
+        cty = (fop.get("const") or {}).get("ty", "")
+        ret_ty = cty.split("-> ", 1)[1].split(" {", 1)[0].split("<")[0] if "-> " in cty else None
+        if adt is None and ret_ty == ep and vn[:1].isupper():
+            # a variant constructor of an enum defined in another crate (`.map(WsMessage::Binary)`): its function type returns the enum
+            adt = {"kind": "enum", "variants": [{"name": vn}]}
         if adt is not None and adt.get("kind") == "enum" and any(v.get("name") == vn for v in adt.get("variants", [])):
-            vi = [k for k, v in enumerate(adt["variants"]) if v.get("name") == vn][0]
+            vi = [k for k, v in enumerate(adt["variants"]) if v.get("name") == vn][0] if ep in _ADTS else None
             rvv = {"agg": "adt", "adt": ep, "variant": vn, "vi": vi, "fields": [str(k) for k in range(len(args))], "ops": args}
             cb = _new_block(body, stmts + [{"k": "assign", "place": cdest, "rv": rvv, "span": span, "desugared": "ctor"}], {"k": "goto", "target": ctarget, "span": span})
             body["blocks"][bb]["term"] = {"k": "switch", "on": {"move": {"l": dl, "p": []}}, "on_ty": "isize", "targets": [[VI[run_v], cb]], "otherwise": pb, "span": span,
@@ -600,6 +623,10 @@ def apply(raw, changed, ref_counts):
     rep = []
     bodies = raw["bodies"]
     del INLINED_CLOSURES[:]
+    _KNOWN_FNS.clear()
+    _KNOWN_FNS.update(inline.load_known() or ())
+    _ALL_FNS.clear()
+    _ALL_FNS.update(bodies)
     _ADTS.clear()
     _ADTS.update(raw.get("adts") or {})
     for path in sorted(changed):
@@ -619,7 +646,7 @@ def apply(raw, changed, ref_counts):
                 t = body["blocks"][bb]["term"]
                 if t["k"] != "call" or t.get("desugared"):
                     continue
-                if _is_local_closure_call(path, t) and ref.get("closure-call", 0) == 0 and "::{closure" not in path:
+                if _is_local_closure_call(path, t) and ref.get("closure-call", 0) == 0 and ("::{closure" not in path or body.get("kind") == "coroutine"):
                     if inline_closure_call(bodies, path, body, bb):
                         rep.append((path, "closure-call"))
                         did = True
